@@ -116,7 +116,9 @@ impl C12 {
             }
         };
         ctx.phase("verdict: C ABI wrappers");
-        let bound = zstd::zstd_safe::compress_bound(exp_len.max(1)) + 64;
+        // ample = the zstd bound of an expansion somewhat larger than the one just measured (the wrapper
+        // expands again itself; equal sizes are C14's verdict, not a premise here)
+        let bound = zstd::zstd_safe::compress_bound(exp_len + exp_len / 8 + 4096) + 64;
         // reference frame with an ample buffer
         let place0 = if r.chance(1, 2) { Place::GuardAfter } else { Place::GuardBefore };
         let c0 = call(true, f, bound, place0);
